@@ -120,6 +120,11 @@ def gen_leaf(rng, nvars, falsy, vocab):
             return ('cmp', rng.choice(['eq', 'ne']), ('attr', rng.randrange(nvars), 'name'), ('attr', rng.randrange(nvars), 'name'))
         return ('cmp', rng.choice(['eq', 'ne']), ('attr', rng.randrange(nvars), 'name'),
                 ('lit', rng.choice(['', 'a', 'b'] if falsy else ['a', 'b', 'c'])))
+    if k == 'listeq':
+        # a list attribute compared with a constant that is itself a list (the constant is ONE value, not a domain)
+        pool = [0, 1, 2] if falsy else [1, 2, 3]
+        return ('cmp', rng.choice(['eq', 'ne']), ('attr', rng.randrange(nvars), 'tags'),
+                ('lit', [rng.choice(pool) for _ in range(rng.randint(0, 2))]))
     if k == 'none':
         # comparison with the constant None (the data has None names)
         return ('cmp', rng.choice(['eq', 'ne']), ('attr', rng.randrange(nvars), 'name'), ('lit', None))
@@ -349,6 +354,12 @@ class EqItem:
 @predicate
 def is_big_fn(o, limit=1):
     return o.size > limit
+
+
+@predicate
+def elem_within(elem, parent, slack=0):
+    """a predicate over a flattened element AND the object it was taken from"""
+    return elem <= parent.size + slack
 
 
 @dataclass(eq=False)
